@@ -121,7 +121,10 @@ class Specialiser:
 
     # ------------------------------------------------------------------ statements
     def stmt(self, st, s):
-        if isinstance(st, (ast.Assert, ast.Pass)) or (isinstance(st, ast.Expr) and isinstance(st.value, ast.Constant)):
+        if isinstance(st, ast.Assert):
+            s.trace.append(Ev("assertion", st, src=norm(st.test)[:120]))   # evaluated on this trace (no effect on the state)
+            return [s]
+        if isinstance(st, ast.Pass) or (isinstance(st, ast.Expr) and isinstance(st.value, ast.Constant)):
             return [s]
         if isinstance(st, ast.Assign):
             return self.assign(st, s)
@@ -249,6 +252,18 @@ class Specialiser:
             return [s]
         if isinstance(e, ast.Call) and isinstance(e.func, ast.Attribute):
             recv = self.ev(e.func.value, s)
+            if recv[0] == "cset" and isinstance(e.func.value, ast.Name) and e.func.attr in ("update", "add", "discard") and len(e.args) == 1:
+                a = self.ev(e.args[0], s)
+                if e.func.attr == "update" and a[0] == "const" and isinstance(a[1], tuple):
+                    s.env[e.func.value.id] = ("cset", recv[1] | frozenset(a[1]))
+                    return [s]
+                if e.func.attr == "update" and a[0] == "cset":
+                    s.env[e.func.value.id] = ("cset", recv[1] | a[1])
+                    return [s]
+                if e.func.attr in ("add", "discard") and a[0] == "const":
+                    s.env[e.func.value.id] = ("cset", recv[1] | {a[1]} if e.func.attr == "add" else recv[1] - {a[1]})
+                    return [s]
+                raise AnalysisError(f"specialiser: `{norm(e)[:70]}` puts a value into a tracked set that is not known for this layout")
             if e.func.attr == "append" and len(e.args) == 1:
                 a = self.ev(e.args[0], s)
                 if a[0] == "region":
@@ -483,6 +498,9 @@ class Specialiser:
                     return r if isinstance(op, ast.In) else not r
                 if b[0] == "emptydict":
                     return isinstance(op, ast.NotIn)
+                if b[0] == "cset" and a[0] == "const":
+                    r = a[1] in b[1]
+                    return r if isinstance(op, ast.In) else not r
                 if b[0] == "kwdict" and a[0] == "const":
                     r = any(x[0] == a[1] for x in b[1])
                     return r if isinstance(op, ast.In) else not r
@@ -567,6 +585,16 @@ class Specialiser:
                     if kx.value == k[1]:
                         return self.ev(vx, s)
                 return ("missing", "<literal table>", k[1])
+        if isinstance(e, ast.Subscript) and isinstance(e.value, ast.Dict) and e.value.keys and \
+                all(isinstance(x, (ast.Name, ast.Attribute)) for x in e.value.keys):
+            # a literal table keyed by types / members (`{Command: (...), Response: (...)}[tpm_type]`)
+            k = self.ev(e.slice, s)
+            if k[0] in ("type", "member"):
+                hits = [vx for kx, vx in zip(e.value.keys, e.value.values) if self.ev(kx, s) == k]
+                if len(hits) == 1:
+                    return self.ev(hits[0], s)
+                if not hits and all(self.ev(kx, s)[0] == k[0] for kx in e.value.keys):
+                    return ("missing", "<literal table>", render(k))
         if isinstance(e, ast.Subscript):
             b = self.ev(e.value, s)
             k = self.ev(e.slice, s)
@@ -605,6 +633,13 @@ class Specialiser:
             if name == "PathNode":
                 a = e.args[0] if e.args else kwarg(e, "name")
                 return ("pathnode", self.ev(a, s))
+            if name in ("set", "frozenset") and not e.keywords and len(e.args) <= 1:
+                # a set of names kept by the walker (which fields are absent ...): tracked when its contents are constants
+                if not e.args:
+                    return ("cset", frozenset())
+                a0 = self.ev(e.args[0], s)
+                if a0[0] == "const" and isinstance(a0[1], tuple):
+                    return ("cset", frozenset(a0[1]))
             if name == "is_parameter_encryption":
                 kws = tuple(sorted((k.arg, self.ev(k.value, s)) for k in e.keywords if k.arg))
                 args = tuple(self.ev(a, s) for a in e.args)
@@ -615,6 +650,8 @@ class Specialiser:
                     tuple(sorted((k.arg, self.ev(k.value, s)) for k in e.keywords if k.arg)))
         if isinstance(e, ast.Dict) and not e.keys:
             return ("emptydict",)
+        if isinstance(e, ast.Set) and all(isinstance(x, ast.Constant) for x in e.elts):
+            return ("cset", frozenset(x.value for x in e.elts))
         if isinstance(e, ast.IfExp):
             c = self.static_cond(e.test, s)
             if c is None and isinstance(e.test, ast.BoolOp):
